@@ -159,7 +159,7 @@ func (e *C04) Run(c *core.Ctx, idx int) {
 	} else {
 		data, d, fi := relInput(c, p, idx)
 		desc = d
-		for _, ei := range p.natural[fi] {
+		for _, ei := range natEntries(p, fi, data) {
 			ent := p.entries[ei]
 			calls = append(calls, call{ent.Name, func() string { return ent.Run(mon.NewRS(data)) }})
 		}
